@@ -362,7 +362,8 @@ def _vti_history(case, members, cfg, hist, d, sink, dim, nel, nnodes):
             path = os.path.join(d, f)
             with open(path, 'rb') as fh:
                 raw = fh.read()
-            it = s if overwrite else c
+            cbase = 0 if overwrite or 0 in counters else 1
+            it = s if overwrite else c - cbase
             if it < s:
                 sink.chk(seen.get(f) == raw, 'vti_earlier_file_changed', {}, nar, file=f, call=s)
                 continue
